@@ -289,7 +289,16 @@ type world struct {
 
 	known1, known2 bool
 	probeCaps      int // generator heuristic: after a refused refresh, let other peers ask for reservations
-	excluded       bool
+	// generator heuristic: a reservation just ended because the peer's last direct connection
+	// closed while a limited one stays; the next steps ask the relay about it (CONNECT to that
+	// peer, RESERVE by others at its address)
+	goneProbe *peerSt
+	// generator heuristic: a reservation holder has direct and limited connections side by
+	// side; some of the next steps close its connections in a generated order
+	mixedPending int
+	goneProbeN   int
+	goneIP       string
+	excluded     bool
 
 	trace      []string
 	labels     map[string]bool
@@ -433,7 +442,25 @@ func (p *peerSt) openConns() []*connSt {
 	return out
 }
 
-// usableConn is the connection a NoDial NewStream would use: an open one that is not limited.
+// limitedConns: the open limited connections (relayed through another relay, Stat().Limited).
+func (p *peerSt) limitedConns() []*connSt {
+	var out []*connSt
+	for _, c := range p.conns {
+		if c.open && tpls[c.tpl].limited {
+			out = append(out, c)
+		}
+	}
+	return out
+}
+
+// limitedOnly: the peer is reachable over limited connections only (Connectedness is Limited,
+// not Connected): it has disconnected in the statement's sense.
+func (p *peerSt) limitedOnly() bool {
+	return p.usableConn() == nil && len(p.openConns()) > 0
+}
+
+// usableConn is a connection that makes the peer Connected and that a NoDial NewStream
+// would use: an open one that is not limited.
 func (p *peerSt) usableConn() *connSt {
 	for _, c := range p.conns {
 		if c.open && !tpls[c.tpl].limited {
